@@ -20,3 +20,25 @@ def run_cli(name, argv):
     finally:
         sys.argv = old
         logging.getLogger("batchie").handlers[:] = []
+
+
+_warm = [False]
+
+
+def warm():
+    """Import every batchie module once (the CLIs do this lazily through introspection.get_class, and third-party
+    imports may touch the global numpy random state): call before comparing runs that depend on that state."""
+    if _warm[0]:
+        return
+    import numpy.random as npr
+
+    from batchie import introspection
+    from batchie.core import Scorer
+
+    st = npr.get_state()
+    try:
+        introspection.get_class(package_name="batchie", class_name="__no_such_class__", base_class=Scorer)
+    except Exception:
+        pass
+    npr.set_state(st)
+    _warm[0] = True
